@@ -387,3 +387,35 @@ def _init_registry(k, n):
     c = reg.contracts[GM + '.__init__']
     c.params = dict(c.params, key=k, nonce=n)
     return reg
+
+
+# NOT PROVED: hexdigest / hexverify (string formatting, binascii.unhexlify: outside the PYVC subset).
+# NOT PROVED: output= given as a WRITABLE memoryview, and output aliasing the input buffer: the engine has no memoryview over a
+#   mutable buffer; output=bytearray (distinct from the input) is proved, the in-place behaviour of the native CTR loop is C-level (C09/CVC).
+# Domain notes: cipher_params == {} (extra cipher keywords are part of the cipher identity and only travel to factory.new);
+#   the object state after a length-limit exception is outside valid().
+#
+# Vacuity / strength check (tools/mut.py, quick tier, 2026-09-26): every semantic mutant below gave exit 1 on the named obligation;
+# the benign ones gave exit 0.
+#   C09  _update: `len(data) // 16 * 16` -> `* 15`                    -> _update.call_pre.len_block_data_16_0, _update.ensures.cache
+#   C09  encrypt: `_update(ciphertext if output is None else output)` -> `_update(plaintext)`   -> encrypt.ensures.stream_first
+#   C09  _pad_cache_and_update: `16 - len_cache` -> `15 - len_cache` -> _pad_cache_and_update.ensures.stream / .cache
+#   C09  benign: local `len_cache` renamed `n_cached`               -> exit 0
+#   C10  digest: guard `if "digest" not in self._next` -> `if False` -> digest.raises_iff.TypeError.if
+#   C10  encrypt: successor `["encrypt","digest"]` + "decrypt"       -> encrypt.ensures.next, encrypt.ensures.inv_dir_dec
+#   C10  update: `self._cache = b""` before the TypeError            -> update.unchanged_on_TypeError.obj1._cache
+#   C10  _compute_mac: `if self._tag:` -> `if False:`                -> _compute_mac.ensures.idempotent, .inv_fin_tag
+#   C01  _compute_mac: `long_to_bytes(8 * self._auth_len, 8)` -> `long_to_bytes(self._auth_len, 8)` -> _compute_mac.lemma.stream
+#   C01  verify: `data=received_mac_tag` -> `received_mac_tag[:4]`   -> verify.raises_iff.ValueError.if / .only_if
+#   C01  __init__: `4 <= mac_len` -> `3 <= mac_len`                  -> __init__.raises_iff.ValueError.if
+#   C01  _compute_mac: `[:self._mac_len]` -> `[:self._mac_len - 1]`  -> _compute_mac.ensures.tag, .inv_fin_len, .inv_fin_tag
+#   C11  encrypt: `2**36 - 32` -> `2**36 - 31`                       -> encrypt.raises_iff.ValueError.if, .inv_msg_max
+#   C11  update: `2**61 - 1` -> `2**61`                              -> update.raises_iff.ValueError.if, .inv_auth_max
+#   C11  decrypt: `2**36 - 32` -> `2**39 - 256` (the original D11)   -> decrypt.raises_iff.ValueError.if, .inv_msg_max
+#   C02  __init__: J0 suffix `...\x01` -> `...\x02`                  -> __init__.ensures.j0
+#   C02  __init__: `bytes_to_long(j0) + 1` -> `+ 2`                  -> __init__.ensures.inv_c_icb
+#   C02  __init__: `long_to_bytes(8 * len(self.nonce), 8)` -> `len(self.nonce)` -> __init__.ensures.j0
+#   C02  __init__: `len(self.nonce) == 12` -> `== 12 or == 16`       -> __init__.raises_iff.ValueError.only_if
+#   C02  encrypt: `self._cipher.encrypt` -> `self._tag_cipher.encrypt` -> encrypt.ensures.inv_c_pos / .inv_tc_pos / .value
+#   C02  _create_gcm_cipher: default mac_len 16 -> 12                -> _create_gcm_cipher.ensures.mac_len
+#   C02  _create_gcm_cipher: `nonce` -> `nonce[:12]` in the GcmMode(...) call -> _create_gcm_cipher.ensures.nonce_attr
